@@ -121,6 +121,23 @@ def make_value(owner, cname, attr, seed, ent):
         cur = getattr(ent, attr)
     except Exception:
         pass
+    mode = None
+    if s and s[0] == 0:
+        mode = "zero"  # the falsy / default value of the domain (a reset is an assignment like any other)
+    elif s and s[0] == 100:
+        mode = "int"  # whole number given as a Python int where the setter takes int or float
+    if mode == "zero":
+        zero = {"rotation": 0.0, "dip": 0.0, "cost": 0.0, "end_of_hole": 0.0, "origin": [0.0, 0.0, 0.0],
+                "collar": [0.0, 0.0, 0.0], "name": "", "description": "", "last_focus": "", "units": "",
+                "metadata": None, "options": {}, "number_of_bins": None}
+        if attr in zero:
+            if attr == "metadata" and ("survey" in type(ent).__module__ or cur is None):
+                return None, None
+            return zero[attr], (None if attr != "metadata" else [None])
+    if mode == "int":
+        ints = {"rotation": 30, "dip": 45, "cost": 7, "end_of_hole": 120, "version": None}
+        if attr in ints and ints[attr] is not None and not (attr in ("rotation",) and cname in ("BlockModel", "Octree") and False):
+            return ints[attr], None
     if attr in ("allow_delete", "allow_move", "allow_rename", "public", "visible", "partially_hidden",
                 "modifiable", "hidden", "transparent_no_data"):
         val = (not bool(cur)) if pick(0) % 3 else bool(cur)
